@@ -270,9 +270,18 @@ def codegen_theorem(chk, tier, d):
         job("XCodeGenMC.cfg", "calls", sl, 4, 1)
     job("XCodeGenMC_nosave.cfg", "", 0, 400, 1, "nosave")
     job("XCodeGenMC_sharedslot.cfg", "calls", 1, 4, 1, "sharedslot")
+    # ... and the same cases through the assembler half of the specification and HexISA itself (XCompileMC): image bytes, byte-granular fetch
+    def jobisa(cfg, sl, nsl, stride, dev=""):
+        o = os.path.join(d, "xcc_%s_%d.json" % (dev or "code", sl)); outs.append((dev and "isa:" + dev, o))
+        jobs.append(dict(module="XCompileMC", cfg=cfg, workers=1, heap="3g", timeout=12000,
+                         env={"WHICH": "", "SLICE": str(sl), "NSL": str(nsl), "STRIDE": str(stride), "DEV": dev, "OUT": "", "OUT2": o}))
+    for sl in range(16):
+        jobisa("XCompileMC.cfg", sl, 16, 600 if tier == "quick" else 25)
+    jobisa("XCompileMC_nonfix.cfg", 3, 2000, 1, "nonfix")
+    nhs = 16 + 4 + 2
     res = vlib.tlc_parallel(jobs, nproc=vlib.NCPU)
     tot = collections.Counter(); states = 0
-    for (dev, o), r in zip(outs, res):
+    for k, ((dev, o), r) in enumerate(zip(outs, res)):
         if not os.path.exists(o):
             raise vlib.MachineryError("XCodeGenMC produced no report (%s): %s" % (o, r.out[-800:]))
         rep = vlib.read_ndjson(o)[0]
@@ -282,11 +291,13 @@ def codegen_theorem(chk, tier, d):
             chk.cov.setdefault("codegen_deviations_refuted_by_TLC", {})[dev] = rep['example'][:160]
             continue
         states += r.distinct or 0
-        tot["cases"] += rep['cases']; tot["defined"] += rep['defined']
+        pre = "isa_" if k >= nhs else ""
+        tot[pre + "cases"] += rep['cases']; tot[pre + "defined"] += rep['defined']
         if rep['unsound'] or r.violation:
-            chk.violation("spec-XCodeGen", "TLC: the code XCodeGen specifies does not compute what XLang defines (or leaves its regions), e.g. %s" % rep['example'][:600])
+            chk.violation("spec-XCompile" if pre else "spec-XCodeGen", "TLC: the code XCodeGen specifies does not compute what XLang defines (or leaves its regions), e.g. %s" % rep['example'][:600])
     chk.add("states", states); chk.add("transitions", states)
     chk.set("XCodeGenMC", dict(tot))
+    chk.vacuity(tot["isa_defined"] < (1500 if tier == "quick" else 40000), "XCompileMC: too few cases inside XLang's domain: %s" % dict(tot))
     chk.vacuity(tot["defined"] < (8000 if tier == "quick" else 500000), "XCodeGenMC: too few cases inside XLang's domain: %s" % dict(tot))
 
 
